@@ -15,16 +15,20 @@ import (
 
 // RFuncs are the wrappers of the fixed package, unrewritten (real channels, real goroutines).
 type RFuncs struct {
-	Fmap     map[string]func(func(int) int, <-chan int) <-chan int
-	FmapCh   func(func(int) <-chan int, <-chan int) <-chan (<-chan int)
-	Dup      map[string]func(chan int) (<-chan int, <-chan int)
-	JoinCC   map[string]func(chan (<-chan int)) <-chan int
-	JoinSC   map[string]func([]chan int) <-chan int
-	JoinV    map[string]func(cs []chan int) <-chan int
-	Pipeline func(f func(int) <-chan int, g func(int) <-chan int) func(int) <-chan int
-	Do2      map[string]func(f0, f1 func() (int, error)) (int, int, error)
-	Do3      map[string]func(f0, f1, f2 func() (int, error)) (int, int, int, error)
-	Do4      func(f0, f1, f2, f3 func() (int, error)) (int, int, int, int, error)
+	Fmap      map[string]func(func(int) int, <-chan int) <-chan int
+	FmapCh    func(func(int) <-chan int, <-chan int) <-chan (<-chan int)
+	Dup       map[string]func(chan int) (<-chan int, <-chan int)
+	JoinCC    map[string]func(chan (<-chan int)) <-chan int
+	JoinSC    map[string]func([]chan int) <-chan int
+	JoinV     map[string]func(cs []chan int) <-chan int
+	Pipeline  func(f func(int) <-chan int, g func(int) <-chan int) func(int) <-chan int
+	PipelineB func(f func(int) chan int, g func(int) chan int) func(int) <-chan int // bidirectional stage results (F95)
+	JoinCCbb  func(in chan (chan int)) <-chan int                                   // bidirectional inner channels (F94)
+	A         ROps[any]
+	E         ROps[error]
+	Do2       map[string]func(f0, f1 func() (int, error)) (int, int, error)
+	Do3       map[string]func(f0, f1, f2 func() (int, error)) (int, int, int, error)
+	Do4       func(f0, f1, f2, f3 func() (int, error)) (int, int, int, int, error)
 }
 
 func jitter(r *rand.Rand) {
@@ -34,16 +38,6 @@ func jitter(r *rand.Rand) {
 	case 1:
 		time.Sleep(time.Microsecond)
 	}
-}
-
-func rproducer(ch chan int, items []int, seed int64) {
-	r := rand.New(rand.NewSource(seed))
-	for _, v := range items {
-		jitter(r)
-		ch <- v
-	}
-	jitter(r)
-	close(ch)
 }
 
 // RunReal executes the configuration on the real runtime and checks the observable clauses.
@@ -57,26 +51,12 @@ func RunReal(F *RFuncs, c Config, r *rand.Rand) (*Outcome, []string, []string) {
 	o.Got, o.SawClose = make([][]int, nOut), make([]bool, nOut)
 	base := runtime.NumGoroutine()
 	var wg sync.WaitGroup
-	consume := func(k int, out <-chan int) {
-		wg.Add(1)
-		seed := r.Int63()
-		go func() {
-			defer wg.Done()
-			jr := rand.New(rand.NewSource(seed))
-			for v := range out {
-				o.Got[k] = append(o.Got[k], v)
-				jitter(jr)
-			}
-			o.SawClose[k] = true
-		}()
-	}
-	mkIns := func() []chan int {
+	mkIns := func() []chan int { // fmapch only (int streams)
 		ins := make([]chan int, len(c.Items))
 		for i := range ins {
 			ins[i] = make(chan int, c.Caps[i])
 			items := c.Items[i]
-			if c.Prefill && (c.Sys == "fmap" || c.Sys == "dup" || c.Sys == "fmapch") {
-				// as much as fits is already in the channel before the call; closed at once when that is everything
+			if c.Prefill {
 				k := len(items)
 				if k > c.Caps[i] {
 					k = c.Caps[i]
@@ -90,32 +70,32 @@ func RunReal(F *RFuncs, c Config, r *rand.Rand) (*Outcome, []string, []string) {
 					continue
 				}
 			}
-			go rproducer(ins[i], items, r.Int63())
+			go rproducerT(ins[i], items, IntCodec.Enc, r.Int63())
 		}
 		return ins
 	}
-	// prefilled inner channel i: buffered, all items already in it; even ones closed, odd ones closed later
-	prefilled := func(i int) chan int {
-		n := len(c.Items[i])
-		if c.Caps[i] > n {
-			n = c.Caps[i]
-		}
-		ch := make(chan int, n)
-		for _, v := range c.Items[i] {
-			ch <- v
-		}
-		if i%2 == 0 {
-			close(ch)
-		} else {
-			seed := r.Int63()
-			go func() { jitter(rand.New(rand.NewSource(seed))); close(ch) }()
-		}
-		return ch
-	}
 	switch c.Sys {
-	case "fmap":
-		ins := mkIns()
-		consume(0, F.Fmap[c.Variant](F3, ins[0]))
+	case "fmap", "dup", "joincc", "joinsc", "joinsel", "pipeline":
+		ok := false
+		switch {
+		case IsIface(c.Variant) && (c.Sys == "fmap" || c.Sys == "dup"):
+			ok = rChanRun(F.A, AnyCodec, c, r, o, &wg)
+		case IsIface(c.Variant):
+			ok = rChanRun(F.E, ErrCodec, c, r, o, &wg)
+		default:
+			ops := ROps[int]{Fmap: F.Fmap[c.Variant], Dup: F.Dup[c.Variant], JoinCC: F.JoinCC[c.Variant],
+				JoinSC: F.JoinSC[c.Variant], JoinV: F.JoinV[c.Variant], Pipeline: F.Pipeline}
+			if c.Variant == "JoinCCbb" {
+				ops.JoinCCbb = F.JoinCCbb
+			}
+			if c.Variant == "PipelineB" {
+				ops.Pipeline, ops.PipelineB = nil, F.PipelineB
+			}
+			ok = rChanRun(ops, IntCodec, c, r, o, &wg)
+		}
+		if !ok {
+			return o, []string{"no wrapper " + c.Variant + " for system " + c.Sys}, nil
+		}
 	case "fmapch":
 		res := map[int]chan int{}
 		tagOf := map[<-chan int]int{nil: 999999}
@@ -140,94 +120,6 @@ func RunReal(F *RFuncs, c Config, r *rand.Rand) (*Outcome, []string, []string) {
 			}
 			o.SawClose[0] = true
 		}()
-	case "dup":
-		ins := mkIns()
-		o1, o2 := F.Dup[c.Variant](ins[0])
-		consume(0, o1)
-		consume(1, o2)
-	case "joincc":
-		if c.Prefill {
-			outer := make(chan (<-chan int), len(c.Items))
-			for i := range c.Items {
-				outer <- prefilled(i)
-			}
-			close(outer)
-			consume(0, F.JoinCC[c.Variant](outer))
-			break
-		}
-		ins := mkIns()
-		outer := make(chan (<-chan int), c.OCap)
-		seed := r.Int63()
-		seq := ins
-		if c.Slice != nil {
-			seq = make([]chan int, len(c.Slice))
-			for p, j := range c.Slice {
-				seq[p] = ins[j]
-			}
-		}
-		go func() {
-			jr := rand.New(rand.NewSource(seed))
-			for _, ch := range seq {
-				jitter(jr)
-				outer <- ch
-			}
-			close(outer)
-		}()
-		consume(0, F.JoinCC[c.Variant](outer))
-	case "joinsc":
-		ins := mkIns()
-		if c.NilSlice && len(ins) == 0 {
-			ins = nil
-		}
-		if c.Slice != nil {
-			sl := make([]chan int, len(c.Slice))
-			for p, j := range c.Slice {
-				sl[p] = ins[j]
-			}
-			ins = sl
-		}
-		consume(0, F.JoinSC[c.Variant](ins))
-	case "joinsel":
-		ins := mkIns()
-		consume(0, F.JoinV[c.Variant](ins))
-	case "pipeline":
-		if c.Prefill {
-			pre := make([]chan int, len(c.Items))
-			for i := range pre {
-				pre[i] = prefilled(i)
-			}
-			f := func(a int) <-chan int {
-				b := make(chan int, len(c.Items))
-				for i := range c.Items {
-					b <- i
-				}
-				close(b)
-				return b
-			}
-			g := func(x int) <-chan int { return pre[x] }
-			consume(0, F.Pipeline(f, g)(0))
-			break
-		}
-		f := func(a int) <-chan int {
-			b := make(chan int, c.OCap)
-			idx := make([]int, len(c.Items))
-			for i := range idx {
-				idx[i] = i
-			}
-			go rproducer(b, idx, int64(len(idx))+1)
-			return b
-		}
-		seeds := make([]int64, len(c.Items))
-		for i := range seeds {
-			seeds[i] = r.Int63()
-		}
-		g := func(x int) <-chan int { // called by the stage-1 goroutine of the emitted code
-			ch := make(chan int, c.Caps[x])
-			go rproducer(ch, c.Items[x], seeds[x])
-			return ch
-		}
-		pipe := F.Pipeline(f, g)
-		consume(0, pipe(0))
 	case "do":
 		rv := make([]chan int, len(c.Pairs))
 		for p := range rv {
@@ -276,7 +168,7 @@ func RunReal(F *RFuncs, c Config, r *rand.Rand) (*Outcome, []string, []string) {
 		if c.Sys == "do" {
 			what = "deadlock: Do has not returned after 10 s on the real runtime (functions that wait for one another never all run)"
 		}
-		return o, []string{what}, nil
+		return o, MutateNote(c, []string{what}), nil
 	}
 	var bad, pending []string
 	if c.Sys == "do" {
@@ -302,7 +194,7 @@ func RunReal(F *RFuncs, c Config, r *rand.Rand) (*Outcome, []string, []string) {
 	if leaked {
 		bad = append(bad, fmt.Sprintf("goroutines left running: %d before the call, %d afterwards", base, runtime.NumGoroutine()))
 	}
-	return o, bad, pending
+	return o, MutateNote(c, bad), pending
 }
 
 // MainR is the main function of the generated program cmd/racerun (built with -race).
@@ -406,6 +298,11 @@ func MainR(F *RFuncs) {
 			if sys == "joinsc" || sys == "joincc" {
 				for _, c := range DupSliceConfigs(sys, 3, 2) {
 					runCfg(c, reps)
+				}
+			}
+			if sys == "joinsc" {
+				for _, c := range MutateConfigs() {
+					runCfg(c, 2*reps)
 				}
 			}
 			for i := 0; i < nc; i++ {
